@@ -47,6 +47,8 @@ ASSUME = ["'!=' and '==' are not generated as input comparators (simplify docume
           "arithmetic is exact",
           "variable names that are substrings of function names or float literals in the same text are not generated",
           "an exception or a None/'' result of simplify/solve is 'no result' (the property is conditional); counted as excluded",
+          "solve: residuals are compared within 1e-9 * max(1, cond(A)) of the row magnitude (sympy's float elimination is "
+          "not backward stable on badly scaled rows); systems with cond(A) > 1e5 are excluded and counted",
           "python's eval, float arithmetic and math functions"]
 
 QUICK_SIMPLIFY = 1500
@@ -149,6 +151,28 @@ def exact_relation(rel):
     for m in E.subtrees(rel, 'mul'):
         for s in m[1:]:
             if s[0] == 'const' and not E.is_pow2(s[1]):
+                return False
+    return True
+
+
+_NUM = None
+
+
+def output_exact(texts):
+    """every numeric literal mystic printed is a short dyadic: only then was nothing rounded on the way
+    (isolating a variable may divide by a non-power-of-two constant of the input - x_j/(x_k+1) <= 6
+    gives 0.166666666666667*x_j - and elimination may produce thirds), and only then are the exact
+    float comparisons of the 'exact' mode meaningful for the output side"""
+    global _NUM
+    import re
+    if _NUM is None:
+        _NUM = re.compile(r'(?<![A-Za-z_0-9.])(\d+\.?\d*(?:[eE][-+]?\d+)?|\.\d+(?:[eE][-+]?\d+)?)')
+    for t in texts:
+        for m in _NUM.findall(t):
+            try:
+                if not E.is_short_dyadic(float(m), 4096, 1e6):
+                    return False
+            except ValueError:
                 return False
     return True
 
@@ -284,33 +308,68 @@ def opposed_text_pairs(text):
     return out
 
 
-class _Watchdog(BaseException):
-    pass
+class _Watchdog(Exception):
+    """the isolated call did not come back in time"""
 
 
-class watchdog(object):
-    """solve() falls back to _solve_nonlinear, which builds list(permutations(all variables x0..xmax))
-    before doing anything: with sparse indices >= 10 that never returns.  A repeating timer gets the
-    case out (solve() has a bare ``except:``, hence repeating); the case then counts as 'no result'."""
-    def __init__(self, seconds):
-        self.seconds = seconds; self.armed = False
+def _count_vars(variables, names):
+    """how many variables solve()'s fallback would permute: all of base0..base<max> for a base name,
+    the whole list for a name list"""
+    if isinstance(variables, str):
+        return 1 + max([int(n[len(variables):]) for n in names if n[len(variables):].isdigit()] or [0])
+    return len(variables)
 
-    def __enter__(self):
-        import signal, threading
-        if threading.current_thread() is threading.main_thread():
-            def fire(*a):
-                raise _Watchdog()
-            self.old = signal.signal(signal.SIGALRM, fire)
-            signal.setitimer(signal.ITIMER_REAL, self.seconds, 0.25)
-            self.armed = True
-        return self
 
-    def __exit__(self, *exc):
-        import signal
-        if self.armed:
-            signal.setitimer(signal.ITIMER_REAL, 0, 0)
-            signal.signal(signal.SIGALRM, self.old)
-        return False
+def guarded_call(fn, nperm, seconds=4.0):
+    """solve() falls back to _solve_nonlinear, which builds list(permutations(all variables x0..xmax)) before
+    doing anything: with 9 or more variables (sparse indices >= 8, long name lists) that does not return.
+    Calls that could get there run in a forked child (same code, same seeded RNG state) that is killed after
+    `seconds`; the case then counts as 'no result'.  Small systems are called in-process.  (A SIGALRM watchdog
+    was tried first: an exception raised from a signal handler at an arbitrary bytecode left a lock held and
+    dead-locked workers.)"""
+    if nperm < 9:
+        return fn()
+    import os, pickle, select
+    r, w = os.pipe()
+    pid = os.fork()
+    if pid == 0:
+        try:
+            os.close(r)
+            try:
+                res = ('ok', fn())
+            except BaseException as e:
+                res = ('exc', type(e).__name__, str(e)[:300])
+            with os.fdopen(w, 'wb') as fh:
+                pickle.dump(res, fh)
+        finally:
+            os._exit(0)
+    os.close(w)
+    try:
+        ready, _, _ = select.select([r], [], [], seconds)
+        if not ready:
+            os.kill(pid, 9)
+            raise _Watchdog()
+        chunks = []
+        while True:
+            b = os.read(r, 65536)
+            if not b:
+                break
+            chunks.append(b)
+        res = pickle.loads(b''.join(chunks)) if chunks else ('exc', 'ChildDied', '')
+    finally:
+        os.close(r)
+        try:
+            os.waitpid(pid, 0)
+        except ChildProcessError:
+            pass
+    if res[0] == 'ok':
+        return res[1]
+    raise _IsolatedError(res[1], res[2])
+
+
+class _IsolatedError(Exception):
+    def __init__(self, name, msg):
+        Exception.__init__(self, '%s: %s' % (name, msg)); self.name = name
 
 
 def call_simplify(case, ctx, names, variables, text):
@@ -325,14 +384,13 @@ def call_simplify(case, ctx, names, variables, text):
     lab.seed_rng(case['seed'])
     try:
         try:
-            with watchdog(3.0):
-                out = simplify(text, **kw)
+            out = guarded_call(lambda: simplify(text, **kw), _count_vars(variables, names))
         except _Watchdog:
             ctx.exclude('simplify-timeout')
             ctx.label('no-result:timeout')
             return None
     except Exception as e:                     # 'no result': the property is conditional on one
-        ctx.exclude('simplify-raised:' + type(e).__name__)
+        ctx.exclude('simplify-raised:' + getattr(e, 'name', type(e).__name__))
         ctx.label('no-result:raised')
         return None
     if out is None or (isinstance(out, str) and not out.strip()):
@@ -409,10 +467,13 @@ def run_simplify(case, ctx):
     if empty_line: ctx.label('output-has-empty-line')
     seen_true = seen_false = False
     npts = 0
+    out_exact = output_exact(cases)
+    if exact_sys and not out_exact:
+        ctx.label('exact-input-rounded-output')
     for p, tag, vouched in simplify_points(case):
         if not all(math.isfinite(v) for v in p):
             continue
-        exact = exact_sys and exact_point(p)
+        exact = exact_sys and out_exact and exact_point(p)
         want = E.system_truth(system, p, exact, IN_BAND, vouched)
         if want is UNDEF:
             ctx.exclude('point:input-undefined')
@@ -463,14 +524,6 @@ def _known_f10(case, subcheck, detail):
             and detail.get('input_holds') is True and not any(v is True for v in detail.get('cases_hold', [True])))
 
 
-def _known_opposed(case, subcheck, detail):
-    """absval() merges the *input* lines with inclusive=True: x >= c with x <= c (or x > c with
-    x <= c, ...) are both deleted, x < c with x > c become x != c -- the result admits more
-    points than the input"""
-    return (subcheck in ('C12.simplify', 'C12.simplify_one') and isinstance(detail, dict)
-            and bool(detail.get('opposed_lines')) and detail.get('input_holds') is False)
-
-
 def _known_product_zero(case, subcheck, detail):
     """x_j*x_k <cmp> 0: sympy's isolated form is x_j <cmp> 0 (0/x_k is simplified away), so no sign
     split on x_k is made and the result ignores the sign of x_k"""
@@ -484,6 +537,14 @@ def _known_unsolved(case, subcheck, detail):
     constraint is lost"""
     return (subcheck in ('C12.simplify', 'C12.simplify_one') and isinstance(detail, dict)
             and detail.get('output_has_empty_line') is True and detail.get('input_holds') is False)
+
+
+def _known_redundant(case, subcheck, detail):
+    """solve() on a consistent system with a redundant (repeated / scaled) equation and a target list: one
+    dependent variable per *line* is solved for, so the solved form has more lines than the rank and pins
+    a free variable (x1 = 0.5 ...): it describes a proper subset of the solutions"""
+    return (subcheck == 'C12.solve_contains' and isinstance(case, dict) and case.get('redundant') is not None
+            and isinstance(detail, dict) and len(E.text_lines(detail.get('output', ''))) > len(case.get('A', [])))
 
 
 # =========================================================================== C12.solve
@@ -610,13 +671,12 @@ def run_solve(case, ctx):
         kw['target'] = [names[i] for i in case['target']]
     try:
         try:
-            with watchdog(3.0):
-                out = solve(text, **kw)
+            out = guarded_call(lambda: solve(text, **kw), _count_vars(variables, names))
         except _Watchdog:
             ctx.exclude('solve-timeout'); ctx.label('no-result:timeout')
             return
     except Exception as e:
-        ctx.exclude('solve-raised:' + type(e).__name__); ctx.label('no-result:raised')
+        ctx.exclude('solve-raised:' + getattr(e, 'name', type(e).__name__)); ctx.label('no-result:raised')
         return
     if not out or not isinstance(out, str) or not out.strip():
         ctx.exclude('solve-no-result'); ctx.label('no-result:empty')
@@ -624,7 +684,10 @@ def run_solve(case, ctx):
     lines = E.text_lines(out)
     ctx.label('solved-lines:%s' % ('=eqs' if len(lines) == ne else '<eqs' if len(lines) < ne else '>eqs'))
     sol = FL(case['sol'])
-    tol = 1e-9
+    # sympy solves in floats without pivoting for accuracy: the printed solved form of a badly scaled system
+    # (coefficients 1 and 1e6 in one row, cond 1e3) is off by a few 1e-9 relative.  The band therefore grows
+    # with the condition number of the coefficient matrix (<= 1e5 here); a wrong solved form is off by O(1).
+    tol = 1e-9 * max(1.0, float(cond))
 
     def near_eq(line, pd):
         # |lhs - rhs| within 1e-9 of the sum of |terms| of the line, with the size of the point as a
@@ -658,7 +721,7 @@ def run_solve(case, ctx):
             ctx.exclude('solution-not-accurate-enough')
             continue
         pd = E.point_dict(p, names)
-        if exact_sys and k == 0 and exact_point(p):
+        if exact_sys and k == 0 and exact_point(p) and output_exact(lines):
             ok = all(E.holds(l, pd) is True for l in lines)
             ctx.label('exact-solution')
         else:
@@ -689,7 +752,11 @@ def run_solve(case, ctx):
         for l in lines:
             lv, lm, cmp_, rv, rm = E.line_sides_mag(l, pd)
             delta[names.index(E.split_line(l)[0])] = 1e-13 * rm
-        allow = [tol * m + sum(abs(a) * dl for a, dl in zip(row, delta)) for (d, m), row in zip(res, rows)]
+        # floor: a backward error of 1e-12 relative to |row| . |point| (a true solution component that is exactly 0
+        # comes back as 3e-21 and the row magnitude at the point is then itself of that size)
+        pmax = max(abs(v) for v in p)
+        allow = [tol * m + sum(abs(a) * dl for a, dl in zip(row, delta)) + 1e-12 * sum(abs(a) for a in row) * pmax
+                 for (d, m), row in zip(res, rows)]
         ok = all(d <= al or d == 0 for (d, m), al in zip(res, allow))
         ctx.expect(ok, 'C12.solve_sound', lambda p=p, res=res, allow=allow: dict(
             input=text, output=out, point=E.point_dict(p, names), options=kw, cond=float(cond),
@@ -873,6 +940,6 @@ TESTS = [
 ]
 
 KNOWN = {'F10-sign-split-drops-zero-factor': _known_f10,
-         'simplify-merges-opposed-input-lines': _known_opposed,
          'simplify-product-vs-zero-ignores-factor-sign': _known_product_zero,
-         'simplify-drops-unsolved-line': _known_unsolved}
+         'simplify-drops-unsolved-line': _known_unsolved,
+         'solve-redundant-equation-overdetermined-form': _known_redundant}
